@@ -39,12 +39,17 @@ Fixpoint attach (cs : list ctr) (an : list (option ctr)) : spod :=
   | c :: t => (c, match an with e :: _ => e | [] => None end) :: attach t (tl an)
   end.
 
-(* how the pod reached the store: 0 admitted by the webhook; 1 webhook bypassed, no annotation;
-   2 webhook bypassed, foreign annotation kept; 3 created WITH a foreign annotation and admitted
-   by the webhook (which rewrites it); anything else as 0 *)
+(* how the pod reached the store: 0 created through the webhook; 1 webhook bypassed, no annotation;
+   2 webhook bypassed, foreign annotation kept; 3 created WITH a foreign annotation through the
+   webhook (which rewrites it); 4 created through the webhook, the annotation replaced later by
+   an UPDATE that the webhook admits without mutating (handleUpdate is a no-op); 5 created through
+   the webhook with the DisableExtendedResourceSpec feature gate on (nothing is written);
+   anything else as 0 *)
+Definition keeps_foreign (amode : Z) : bool := (amode =? 2) || (amode =? 4).
+Definition no_annotation (amode : Z) : bool := (amode =? 1) || (amode =? 5).
 Definition stored (amode : Z) (cs : list ctr) (foreign : list (option ctr)) : spod :=
-  if amode =? 1 then attach cs []
-  else if amode =? 2 then attach cs foreign
+  if no_annotation amode then attach cs []
+  else if keeps_foreign amode then attach cs foreign
   else attach cs (webhook cs).
 
 (* ---------- the hook bodies on a selected per-container pointer ---------- *)
@@ -86,5 +91,19 @@ Definition ctr_view (recon : bool) (x : ctr * option ctr) : option ctr :=
 Definition run_b (recon : bool) (g : cfg) (p : spod) : res * list res :=
   run_v g (pod_view recon p) (map (ctr_view recon) p).
 
-(* harness mode codes: 0 runtime proxy, 1 NRI, anything else reconciler *)
-Definition recon_of_mode (m : Z) : bool := negb ((m =? 0) || (m =? 1)).
+(* ---------- init containers ---------- *)
+
+(* spec.initContainers: the webhook and util.GetPodExtendedResources skip them ("TODO: count init
+   containers and pod overhead"), so the annotation holds no entry under their names and they
+   never enter a pod-level sum. FromProxy / FromNri therefore find nothing for them;
+   FromReconciler finds them through status.initContainerStatuses and reads their own spec. *)
+Definition init_view (recon : bool) (c : ctr) : option ctr :=
+  if recon && listed c then Some c else None.
+
+(* the pod's and the containers' responses, then one response per init container *)
+Definition run_i (recon : bool) (g : cfg) (p : spod) (inits : list ctr) : (res * list res) * list res :=
+  (run_b recon g p, map (fun c => container_out_e g (init_view recon c)) inits).
+
+(* harness mode codes: 0 / 3 runtime proxy, 1 / 4 NRI, anything else reconciler (3, 4, 5 = the same
+   paths observed after the injecting stage) *)
+Definition recon_of_mode (m : Z) : bool := negb ((m =? 0) || (m =? 1) || (m =? 3) || (m =? 4)).
